@@ -28,6 +28,7 @@ Definition E_NOT_FOUND := 6.     (* types.GaugeNotFoundError *)
 Definition E_FINISHED := 7.      (* types.UnexpectedFinishedGaugeError *)
 Definition E_LOCK := 8.          (* any lockup error *)
 Definition E_EPOCH := 9.         (* AfterEpochEnd returned an error or panicked *)
+Definition E_OTHER := 11.        (* anything else, e.g. sdk.NewCoin panics on a negative amount *)
 
 (* ------------------------------------------------------------------------------------------ *)
 (* sdk.Coins: sorted by denom, positive amounts (canonical form kept by construction)          *)
@@ -381,6 +382,7 @@ Fixpoint distribute_loop (cfg : config) (thr : Z -> tval) (tbl : list lock) (gs 
 Definition sends_total (di : dinfo) : coins := fold_left (fun a e => coins_add a (de_coins e)) di [].
 Definition do_sends (b : bank) (di : dinfo) : option bank :=
   let total := sends_total di in
+  if existsb (fun e => de_recv e =? MODULE) di then None else      (* module accounts are blocked recipients *)
   if has_coins b MODULE total then
     Some (fold_left (fun b' e => bank_add b' (de_recv e) (de_coins e)) di (bank_sub b MODULE total))
   else None.
@@ -472,8 +474,9 @@ Definition after_epoch_end (cfg : config) (thr : Z -> tval) (s : state) : res st
 Definition with_locks (s : state) (tbl : list lock) (last : Z) : state :=
   mkState (s_now s) (s_gauges s) (s_last_gauge s) (s_up s) (s_act s) (s_fin s) tbl last (s_bank s) (s_routable s).
 
-(* CreateLock; the owner is assumed to hold the coins (amt > 0) *)
+(* CreateLock; the owner is assumed to hold the coins; a non-positive amount is not a valid coin *)
 Definition create_lock (s : state) (owner denom amt dur : Z) : res (state * Z) :=
+  if amt <=? 0 then Err E_LOCK else
   let id := s_last_lock s + 1 in
   Ok (with_locks s (s_locks s ++ [mkLock id owner denom amt dur false 0 None]) id, id).
 
@@ -482,6 +485,7 @@ Definition add_to_lock (s : state) (id amt : Z) : res state :=
   match find_lock (s_locks s) id with
   | None => Err E_LOCK
   | Some l =>
+      if amt <=? 0 then Err E_LOCK else
       Ok (with_locks s (set_lock (s_locks s)
             (mkLock (l_id l) (l_owner l) (l_denom l) (l_amt l + amt) (l_dur l) (l_unl l) (l_end l) (l_recv l)))
             (s_last_lock s))
@@ -492,6 +496,7 @@ Definition begin_unlock (s : state) (id amt : Z) : res (state * Z) :=
   match find_lock (s_locks s) id with
   | None => Err E_LOCK
   | Some l =>
+      if amt <? 0 then Err E_LOCK else
       if l_amt l <? amt then Err E_LOCK else
       if l_unl l then Err E_LOCK else
       if negb (amt =? 0) && negb (amt =? l_amt l) then
@@ -544,6 +549,10 @@ Inductive op :=
 | OTime (dt : Z)
 | OEpoch (dt : Z) (thr : list tval).
 
+(* sdk.NewCoin panics on a negative amount; the epoch count is a uint64; users are the non-negative
+   addresses (the module account signs nothing) *)
+Definition valid_raw (raw : list (Z * Z)) : bool := forallb (fun x => 0 <=? snd x) raw.
+
 Definition thr_fun (l : list tval) : Z -> tval := fun d => nth (Z.to_nat d) l TNoRoute.
 
 Definition advance (s : state) (dt : Z) : state :=
@@ -554,9 +563,11 @@ Definition advance (s : state) (dt : Z) : state :=
 Definition handle (cfg : config) (s : state) (o : op) : res (state * Z) :=
   match o with
   | OGauge u perp denom dur raw start n =>
+      if negb (valid_raw raw) || (n <? 0) || (two64 <=? n) || (u <? 0) then Err E_OTHER else
       match create_gauge cfg s u perp denom dur (mk_coins raw) start n with
       | Ok s' => Ok (s', s_last_gauge s') | Err e => Err e end
   | OAdd u g raw =>
+      if negb (valid_raw raw) || (u <? 0) then Err E_OTHER else
       match add_to_gauge cfg s u (mk_coins raw) g with Ok s' => Ok (s', 0) | Err e => Err e end
   | OLock u denom amt dur => create_lock s u denom amt dur
   | OAddLock id amt => match add_to_lock s id amt with Ok s' => Ok (s', 0) | Err e => Err e end
